@@ -674,10 +674,19 @@ def deep_clone(value: Any) -> Any:
 
     # For lists, check if they contain PropertyTreeNode objects
     if isinstance(value, list):
-        if value and hasattr(value[0], "propertySet"):
-            # This is a list of PropertyTreeNode objects (like tasks in depends)
-            # Do a shallow copy to preserve object identity
-            return list(value)
+
+        def refers_to_node(item: Any) -> bool:
+            if hasattr(item, "propertySet"):
+                return True
+            # Dependency with options: {"task": <Task>, "gapduration": ..., "onstart": ...}
+            return isinstance(item, dict) and any(hasattr(v, "propertySet") for v in item.values())
+
+        if any(refers_to_node(item) for item in value):
+            # This is a list referring to PropertyTreeNode objects (like tasks in depends).
+            # Copy the list (and option dicts) but preserve the identity of the nodes: a deep
+            # copy would clone the referenced task together with the whole project, and the
+            # inheriting child would then wait for a clone that is never scheduled.
+            return [dict(item) if isinstance(item, dict) else item for item in value]
         else:
             # Regular list, deep copy
             return copy.deepcopy(value)
